@@ -346,8 +346,16 @@ pub fn build_real(m: &RefArchive, rng: &mut Rng) -> Result<BinArchive, String> {
         Ptr(usize),
         CStr(usize),
         Label(usize),
+        Rejected(usize),
     }
     let mut ops: Vec<Op> = Vec::new();
+    // every third build also issues calls that must be rejected (addresses outside the data);
+    // they must return Err and leave nothing behind that shows in the serialized image
+    if rng.chance(1, 3) {
+        for k in 0..rng.range(1, 5) {
+            ops.push(Op::Rejected(k + rng.below(5)));
+        }
+    }
     // raw bytes in random chunks
     let mut pos = 0;
     while pos < n {
@@ -382,6 +390,29 @@ pub fn build_real(m: &RefArchive, rng: &mut Rng) -> Result<BinArchive, String> {
                 let l = &m.labels[&k][*i];
                 *i += 1;
                 a.write_label(k, l).map_err(|e| e.to_string())
+            }
+            Op::Rejected(kind) => {
+                let beyond = ((n + 3) / 4) * 4 + 4 * (kind % 3);
+                let last_cell_straddles = n.saturating_sub(n % 4).max(if n % 4 == 0 { n } else { 0 });
+                let (what, res): (&str, Result<(), String>) = match kind % 6 {
+                    0 => ("write_c_string beyond the data", a.write_c_string(beyond, format!("ghost_c_{}", kind)).map_err(|e| e.to_string())),
+                    1 => ("write_string beyond the data", a.write_string(beyond, Some(&format!("ghost_s_{}", kind))).map_err(|e| e.to_string())),
+                    2 => ("write_pointer beyond the data", a.write_pointer(beyond, Some(0)).map_err(|e| e.to_string())),
+                    3 => ("write_label beyond the data", a.write_label(beyond + 1, &format!("ghost_l_{}", kind)).map_err(|e| e.to_string())),
+                    4 => ("write_c_string at usize::MAX - 3", a.write_c_string(usize::MAX - 3, "ghost_max".to_string()).map_err(|e| e.to_string())),
+                    _ => {
+                        // a cell that starts inside the data but does not fit (only when the length is unaligned or zero)
+                        if n % 4 != 0 || n == 0 {
+                            ("write_string on a cell that does not fit", a.write_string(last_cell_straddles, Some("ghost_fit")).map_err(|e| e.to_string()))
+                        } else {
+                            ("write_string beyond the data", a.write_string(beyond, Some("ghost_fit")).map_err(|e| e.to_string()))
+                        }
+                    }
+                };
+                match res {
+                    Err(_) => Ok(()),
+                    Ok(()) => Err(format!("REJECTED-CALL-ACCEPTED: {} returned Ok on an archive of {} bytes", what, n)),
+                }
             }
         };
         r.map_err(|e| format!("building archive through the API failed: {}", e))?;
